@@ -46,7 +46,7 @@ class C16(object):
             'return value with the reference slice; BaseSolver.CreateCsvString histories likewise; distinct = hash of '
             '(holder data, history); non-trivial = >= 2 reads of which one with suppression or mutation')
     assumptions = ['series are non-empty when time-zero suppression is on', 'cutoffs are non-negative']
-    required_counters = ('get.judged', 'get.suppressed', 'get.mutated_return', 'csv.judged', 'csv.default_format', 'basesolver.judged', 'get_missing.judged',
+    required_counters = ('get.judged', 'get.no_cutoff_series_longer_than_model_horizon', 'get.suppressed', 'get.mutated_return', 'csv.judged', 'csv.default_format', 'basesolver.judged', 'get_missing.judged',
                          'insitu.gettimeseries.post_evaluated')
 
     def n_cases(self, tier):
@@ -67,7 +67,8 @@ class C16(object):
             spec = G.gen_affine(rng, rho=rng.choice([0.2, 0.5]), tol=1e-8, maxtime=rng.randint(2, 8))
             nser = len(G.all_value_names(spec)) + 1
             return {'kind': 'solved', 'text': G.render(spec), 'trace': rng.randint(1, spec['maxtime']),
-                    'history': gen_history(rng, nser, spec['maxtime'] + 1)}
+                    'history': gen_history(rng, nser, spec['maxtime'] + 1),
+                    'model_maxtime': [None, 1][idx % 2]}
         n = rng.randint(1, 6)
         ln = rng.randint(1, 8)
         names = rng.sample(['x', 'y', 't', 'k', 'HH__F', 'GOV__T', 'iteration', 'z', 'w'], n)
@@ -75,7 +76,10 @@ class C16(object):
         for g in ('main', 'step', 'initial'):
             holders[g] = {nm: [rng.choice([0.0, 1.0, 2.0, -1.5, 3.25, 10.0]) + i for i in range(ln + rng.randint(0, 2))]
                           for nm in names}
-        return {'kind': 'synthetic', 'holders': holders, 'history': gen_history(rng, n, ln)}
+        return {'kind': 'synthetic', 'holders': holders, 'history': gen_history(rng, n, ln),
+                # the model's own horizon may be shorter than a stored group (steady-state search, step trace, a
+                # horizon set on the solver): "no cutoff" still means every stored point
+                'model_maxtime': [None, 1, 2, 0][idx % 4]}
 
     # ------------------------------------------------------------------------------------------
     def run_case(self, case):
@@ -109,6 +113,8 @@ class C16(object):
                     th[nm] = list(vals)
                 setattr(s, attr, th)
         solver = mod.EquationSolver
+        if case.get('model_maxtime') is not None:
+            mod.MaxTime = case['model_maxtime']
         reads = 0
         stressed = 0
         rendered = {}
@@ -160,6 +166,8 @@ class C16(object):
                     rec.violate('read_raised', {'op': op, 'series': name, 'err': repr(e)})
                     break
                 rec.count('get.judged')
+                if eff is None and len(stored) > mod.MaxTime + 1:
+                    rec.count('get.no_cutoff_series_longer_than_model_horizon')
                 reads += 1
                 if repr(list(out)) != repr(ref):
                     rec.violate('read_wrong_slice', {'op': op, 'series': name, 'got': list(out)[:10],
